@@ -5,6 +5,7 @@ package main
 // case's PRNG, and the executed script is recorded line by line, so a case replays exactly.
 
 import (
+	"bytes"
 	"fmt"
 	"os"
 	"path/filepath"
@@ -1275,6 +1276,35 @@ func (h *Hist) step() {
 				nd[i] ^= byte(1 + r.intn(255))
 				h.W("write", f, nd)
 			}
+		}
+	case "block-size-probe":
+		// a tracked file whose size sits on (or next to) the block sizes readers use — 4096, 8192, 65536 — staged, then edited at
+		// its very end (bytes appended, the last byte changed, one byte cut): `status` compares bytes, not blocks
+		size := r.pick([]string{"4096", "4096", "8192", "65536", "4095", "4097", "512", "1024"})
+		n := 0
+		fmt.Sscanf(size, "%d", &n)
+		f := h.randPath()
+		base := bytes.Repeat([]byte("0123456789abcde\n"), n/16+1)[:n]
+		h.W("write", f, base)
+		h.X(tz, "add", f)
+		if r.chance(1, 2) {
+			h.X(tz, "commit", "-m", "a file of "+size+" bytes")
+		}
+		h.X(tz, "status")
+		switch r.intn(4) {
+		case 0, 1:
+			h.W("write", f, append(append([]byte{}, base...), []byte("tail\n")...))
+		case 2:
+			nd := append([]byte{}, base...)
+			nd[len(nd)-1] ^= 1
+			h.W("write", f, nd)
+		default:
+			h.W("write", f, base[:len(base)-1])
+		}
+		h.X(tz, "status")
+		if r.chance(1, 2) {
+			h.X(tz, "restore", f)
+			h.X(tz, "status")
 		}
 	case "restore-dir-probe":
 		// a directory argument to `restore --staged` while the staging area and HEAD differ beneath it in several ways at
